@@ -260,6 +260,23 @@ def check(src, rep):
                 elif remembered(obj) != names[new_prev]:
                     V("R2", "repeated-payload", "decoding a payload that was decoded before does not update the remembered decoder", fnp,
                       f"{desc}: previous_success_decoder is {remembered(obj)!r} after the third call, expected {names[new_prev]!r}")
+    # payloads nobody accepts leave the remembered decoder alone, however many of them arrive in a row
+    if not und:
+        for prev in range(n):
+            obj = fresh(prev)
+            for k_ in range(1, 7):
+                state["accept"], state["calls"] = set(), []
+                rj = AE.apply(fnp, [obj, b"junk %d" % k_])
+                cells += 1
+                if rj[0] in ("undecided", "branch"):
+                    und = f"a run of undecodable payloads: {rj[1]!r}"
+                    break
+                if rj[0] == "value" and rj[1] is None and remembered(obj) != names[prev]:
+                    V("R2", "memory-write-outside-success", "the remembered decoder changes although nobody accepted the payload (after a run of undecodable payloads)", fnp,
+                      f"remembered={names[prev]}, then {k_} payload(s) no decoder accepts: previous_success_decoder becomes {remembered(obj)!r}")
+                    break
+            if und:
+                break
     rep.count("rotation_cells", cells)
     # empty / absent payload
     if not und:
